@@ -1,9 +1,58 @@
 import Okane.Drv.IOUtil
-/-! Driver commands for C05 (stub: replaced when the property's streams are built). -/
-namespace Okane.Drv.C05
+import Okane.Drv.DecodeSyntax
+import Okane.Model.Parse
+import Okane.Model.Unparse
+/-!
+Driver for C05 (same record formats as `harness/src/c05.rs`).
 
-def main (args : List String) : IO Unit := do
-  let _ := args
-  pure ()
+`drv c05 parse` — case: `<enc(text)>`; record: `<start>:<end> <entry sexp> | ... # done | # err <off> <end> <line> | # panic .. | # fuel`
+`drv c05 fmt`   — case: `<enc(text)>`; record: `ok <enc(formatted)>` | `err parse` | `panic ..`
+`drv c05 wf`    — case: `<enc(text)>`; record: `wf` | `notwf <index of first entry violating WFEntry>` | `noparse`
+                  (the image property: what the model parser returns satisfies the printer's well-formedness predicate)
+-/
+namespace Okane.Drv.C05
+open Okane Okane.Parse
+
+def entriesStr (es : List Parsed) : String :=
+  " | ".intercalate (es.map fun p => s!"{p.start}:{p.stop} {(encEntry p.entry).toStr}")
+
+def parseStep (line : String) : String :=
+  match Sexp.decode (line.trimAscii.toString) with
+  | none => "bad-case"
+  | some text =>
+    let (es, ending) := parseLedgerRun text.toList
+    let tail := match ending with
+      | .done => "# done"
+      | .error e => s!"# err {e.offset} {e.spanEnd} {e.lineStart}"
+      | .panic s => s!"# panic {Sexp.encode s}"
+      | .fuelOut => "# fuel"
+    if es.isEmpty then tail else entriesStr es ++ " " ++ tail
+
+def fmtStep (line : String) : String :=
+  match Sexp.decode (line.trimAscii.toString) with
+  | none => "bad-case"
+  | some text =>
+    match Unparse.format Unparse.widthCjk Unparse.widthStd text.toList with
+    | .ok out => "ok " ++ Sexp.encode (String.ofList out)
+    | .err _ => "err parse"
+    | .panic s => "panic " ++ Sexp.encode s
+    | .fuelOut => "fuel"
+
+def wfStep (line : String) : String :=
+  match Sexp.decode (line.trimAscii.toString) with
+  | none => "bad-case"
+  | some text =>
+    match parseEntries text.toList with
+    | .ok es =>
+      match (es.zipIdx.find? fun (e, _) => !Unparse.wfEntry e) with
+      | none => "wf"
+      | some (_, i) => s!"notwf {i}"
+    | _ => "noparse"
+
+def main (args : List String) : IO Unit :=
+  match args with
+  | "fmt" :: _ => forEachLine fmtStep
+  | "wf" :: _ => forEachLine wfStep
+  | _ => forEachLine parseStep
 
 end Okane.Drv.C05
